@@ -522,6 +522,44 @@ class VBin(VBase):
     kid: "VBin | None" = None
 
 
+class _Pretty:
+    """A plain (non-node) mixin."""
+
+    def pretty(self) -> str:
+        return f"<{type(self).__name__}>"
+
+
+@dataclass(frozen=True)
+class VMixLeaf(_Pretty, VLeaf):
+    """Non-node mixin listed before the node base: MRO VMixLeaf, _Pretty, VLeaf, VBase, ASTNode."""
+
+
+@dataclass(frozen=True)
+class VLateMix(VLeaf, _Pretty):
+    """Mixin listed after the node base."""
+
+
+@dataclass(frozen=True)
+class VDiamond(VSubLeaf, VMixLeaf):
+    """MRO VDiamond, VSubLeaf, VMixLeaf, _Pretty, VLeaf, ..."""
+
+
+CLASSES["VMixLeaf"] = VMixLeaf
+CLASSES["VLateMix"] = VLateMix
+CLASSES["VDiamond"] = VDiamond
+_STAMPS = __import__("itertools").count(1)
+
+
+@dataclass(frozen=True)
+class VStamp(VBase):
+    """Per-instance bookkeeping that is neither an argument nor comparable (a creation counter)."""
+
+    v: int = 0
+    stamp: int = field(default_factory=lambda: next(_STAMPS), init=False, compare=False)
+    kid: VBase | None = None
+
+
+CLASSES["VStamp"] = VStamp
 CLASSES["VSlot"] = VSlot
 CLASSES["VBin"] = VBin
 CLASSES["VValidated"] = VValidated
